@@ -229,6 +229,9 @@ def tlc(ctx, module, cfg, workers="auto", simulate=None, depth=None, timeout=180
     r["error"] = None
     if rc == -9:
         r["error"] = "timeout"
+    elif rc < 0 or rc >= 128 or "Finished in" not in out:
+        # killed from outside / JVM died: never to be mistaken for a clean run (0 states, no violation)
+        r["error"] = "TLC did not finish (rc=%d)" % rc
     elif r["violated"] is None and not r["postfail"] and ("Error:" in out and "Model checking completed. No error" not in out
                                                           and not (simulate and rc in (0,))):
         m = re.search(r"Error: (.*)", out)
